@@ -238,7 +238,12 @@ func cmdCheck(args []string) int {
 		fmt.Println(l)
 	}
 	if exit == 2 {
+		seenInc := map[string]bool{}
 		for _, m := range inconclusive {
+			if seenInc[m] {
+				continue
+			}
+			seenInc[m] = true
 			fmt.Printf("INCONCLUSIVE property=%s reason=%s\n", id, m)
 		}
 	}
